@@ -200,7 +200,7 @@ func (c *Ctx) protectedCall(cs ssa.CallInstruction) bool {
 func (c *Ctx) unprotectedRegion() *Reach {
 	a := c.A
 	roots := append([]*ssa.Function{}, a.Members...)
-	roots = append(roots, a.Teardown, a.ConnDispatch, a.SetDispatch)
+	roots = append(roots, a.Teardown, a.TeardownCore, a.ConnDispatch, a.SetDispatch)
 	for _, n := range []string{"(*Line).Text", "(*Line).Target", "(*Line).Public", "ParseLine", "(*Conn).LogPanic"} {
 		if f := c.Func(c.Client, n); f != nil {
 			roots = append(roots, f)
